@@ -1,15 +1,20 @@
 """C13 facts -> coq/gen/Gen_time.v   (timestamps: how each storage path writes / reads a datetime, who reads the
 display-timezone setting).
 
-Shapes are read with `ast` (fail closed on anything unrecognised), values with the imported modules, and the set of
-flow.record functions that run for each operation on a timestamp with a profiler hook (sys.setprofile) on a real
-record.
+Facts are OBSERVED: the real functions are run on a probe battery (pack_obj/unpack_obj on every tzinfo kind, the JSON
+packer, db_insert_record + PRAGMA table_info + the reader's derived field type for a created and for an added column,
+AvroReader on a plain-long file, datetime.__new__ on every input form under TZ=Asia/Kolkata), and the flow.record
+functions that run per operation / per entry route are recorded with a profiler hook.  The `ast` recognisers are
+cross-checks: recognised-and-contradicting -> Unsupported (fail closed); not recognised -> a note in Gen_time.v.
+Only the display-setting mention set is static (ast over all of flow/record, with module-level names that carry the
+setting followed to a fixpoint).
 """
 from __future__ import annotations
 
 import ast
 import datetime as _pydt
 import inspect
+import json
 import os
 import shutil
 import sys
@@ -554,19 +559,316 @@ def fromiso_probe():
     raise Unsupported("fromisoformat reads sub-second offsets as %r" % (got,))
 
 
+# ------------------------------------------------------------------------------------------ OBSERVED facts
+# Each fact below is derived from what the real functions DO on purpose-built probes.  The ast recognisers above are
+# kept as cross-checks only: recognised-and-contradicting -> Unsupported; not recognised -> a note in the generated file.
+
+def _probe_tzinfos():
+    from zoneinfo import ZoneInfo
+    td = _pydt.timedelta
+    return dict(
+        KEqUTC=[_pydt.timezone.utc, _pydt.timezone(td(0), "GMT")],
+        KOther=[ZoneInfo("UTC"), _pydt.timezone(td(hours=1)), _pydt.timezone(td(seconds=-1)), _pydt.timezone(td(microseconds=1)),
+                _pydt.timezone(td(hours=5, minutes=45)), _pydt.timezone(td(hours=23, minutes=59, seconds=59, microseconds=999999)),
+                _pydt.timezone(-td(hours=23, minutes=59, seconds=59, microseconds=999999)), ZoneInfo("Europe/Amsterdam"),
+                ZoneInfo("America/New_York")],
+    )
+
+
+_PROBE_WALLS = [(2021, 10, 31, 2, 30, 0, 0), (1969, 12, 31, 23, 59, 59, 999999), (1, 1, 2, 0, 0, 0, 1), (9999, 12, 30, 23, 59, 59, 0)]
+
+
+def _probe_values():
+    """[(tz_kind, stdlib datetime)]"""
+    tzs = _probe_tzinfos()
+    out = []
+    for w in _PROBE_WALLS:
+        out.append(("KNaive", _pydt.datetime(*w)))
+        for k in ("KEqUTC", "KOther"):
+            for tz in tzs[k]:
+                for fold in (0, 1):
+                    out.append((k, _pydt.datetime(*w, tzinfo=tz, fold=fold)))
+    return out
+
+
+def _obs(d):
+    off = d.utcoffset()
+    return (d.year, d.month, d.day, d.hour, d.minute, d.second, d.microsecond,
+            None if off is None else off // _pydt.timedelta(microseconds=1))
+
+
+def observe_packer():
+    """Run RecordPacker.pack_obj on the probe battery: which tzinfo kinds are packed as the 7 fields, which as
+    isoformat text; unpack gives the field type's value of the payload."""
+    import flow.record.fieldtypes as ft
+    import flow.record.packer as packer
+    pk = packer.RecordPacker()
+    forms = {}
+    for kind, v in _probe_values():
+        for val in ([v] if kind == "KNaive" else [v, ft.datetime(v)]):
+            ext = pk.pack_obj(val)
+            sub, payload = pk.unpack(ext.data)
+            if sub != packer.RECORD_PACK_TYPE_DATETIME:
+                raise Unsupported("pack_obj(%r) has subtype %r" % (val, sub))
+            payload = tuple(payload)
+            if payload == (val.year, val.month, val.day, val.hour, val.minute, val.second, val.microsecond):
+                form = "FormTuple7"
+            elif len(payload) == 1 and payload[0] == val.isoformat():
+                form = "FormIsoText"
+            else:
+                raise Unsupported("pack_obj(%r) carries %r: neither the seven fields nor isoformat()" % (val, payload))
+            forms.setdefault(kind, set()).add(form)
+            back = pk.unpack_obj(ext.code, ext.data)
+            want = ft.datetime(*payload)
+            if type(back) is not ft.datetime or _obs(back) != _obs(want):
+                raise Unsupported("unpack_obj of %r gives %r, fieldtypes.datetime(*payload) gives %r" % (payload, back, want))
+    for k, fs in forms.items():
+        if len(fs) != 1:
+            raise Unsupported("pack_obj stores timestamps of tzinfo kind %s in different forms (%s)" % (k, sorted(fs)))
+    f = {k: next(iter(v)) for k, v in forms.items()}
+    else_form = f["KOther"]
+    then_form = "FormTuple7" if else_form == "FormIsoText" else "FormIsoText"
+    tests = [t for t, k in (("TzinfoIsNone", "KNaive"), ("TzinfoEqUTC", "KEqUTC")) if f[k] == then_form]
+    return tests, then_form, else_form, packer.RECORD_PACK_TYPE_DATETIME
+
+
+def observe_json_form():
+    import flow.record.fieldtypes as ft
+    from flow.record.jsonpacker import JsonRecordPacker
+    jp = JsonRecordPacker()
+    for kind, v in _probe_values():
+        val = ft.datetime(v)
+        got = jp.pack_obj(val)
+        if got != val.isoformat():
+            raise Unsupported("JsonRecordPacker.pack_obj(%r) is %r, isoformat() is %r" % (val, got, val.isoformat()))
+    return "FormIsoText"
+
+
+def observe_sqlite(tmp):
+    """What db_insert_record stores for a timestamp (raw cell), what column type a datetime field gets when the
+    table is created with it and when the column is added later, and what field type the reader derives."""
+    import sqlite3
+
+    import flow.record.adapter.sqlite as sq
+    from flow.record import RecordDescriptor, RecordReader
+    import flow.record.fieldtypes as ft
+    Small = RecordDescriptor("verif/c13probe", [("varint", "i")])
+    Large = RecordDescriptor("verif/c13probe", [("varint", "i"), ("datetime", "ts")])
+    res = {}
+    for key in ("create", "alter"):
+        path = str(tmp / ("probe_%s.sqlite" % key))
+        con = sqlite3.connect(path, isolation_level=None)
+        if key == "create":
+            sq.create_descriptor_table(con, Large)
+            sq.update_descriptor_columns(con, Large)
+        else:
+            sq.create_descriptor_table(con, Small)
+            sq.update_descriptor_columns(con, Small)
+            sq.db_insert_record(con, Small(i=-1, _generated=_G))
+            sq.create_descriptor_table(con, Large)
+            sq.update_descriptor_columns(con, Large)
+        vals = [ft.datetime(v) for _, v in _probe_values()]
+        con.execute("BEGIN")
+        for n, v in enumerate(vals):
+            sq.db_insert_record(con, Large(i=n, ts=v, _generated=_G))
+        con.execute("COMMIT")
+        cols = {row[1]: row[2] for row in con.execute('PRAGMA table_info("verif/c13probe")')}
+        raw = dict(con.execute('SELECT i, ts FROM "verif/c13probe" WHERE i >= 0'))
+        con.close()
+        for n, v in enumerate(vals):
+            if raw.get(n) != v.isoformat():
+                raise Unsupported("db_insert_record stores %r for %r, isoformat() is %r" % (raw.get(n), v, v.isoformat()))
+        rd = RecordReader("sqlite://" + path)
+        kinds = {x._desc.fields["ts"].typename for x in rd}
+        rd.close()
+        if len(kinds) != 1 or not isinstance(cols.get("ts"), str):
+            raise Unsupported("sqlite probe (%s): column %r, field types %r" % (key, cols.get("ts"), kinds))
+        res[key] = (cols["ts"], next(iter(kinds)))
+    return "FormIsoText", res
+
+
+def observe_avro(tmp):
+    """schema of a datetime field (live), EPOCH, and the reader's treatment of a plain long (no logical type)"""
+    import fastavro
+
+    import flow.record.adapter.avro as av
+    from flow.record import RecordDescriptor, RecordReader
+    D = RecordDescriptor("verif/c13", [("varint", "i"), ("datetime", "ts")])
+    schema = av.descriptor_to_schema(D)
+    fld = [f for f in schema["fields"] if f["name"] == "ts"]
+    t = fld[0]["type"] if len(fld) == 1 else None
+    ts = [x for x in (t if isinstance(t, list) else [t]) if isinstance(x, dict) and x.get("type") != "null"]
+    if len(ts) != 1 or not isinstance(ts[0].get("type"), str):
+        raise Unsupported("avro datetime field type is %r" % (t,))
+    base, logical = ts[0]["type"], ts[0].get("logicalType") or ""
+    ep = av.EPOCH
+    if ep.utcoffset() is None:
+        raise Unsupported("avro EPOCH is naive")
+    us = _pydt.timedelta(microseconds=1)
+    e0 = _pydt.datetime(1970, 1, 1, tzinfo=_pydt.timezone.utc)
+    epoch_micros, epoch_off = (ep - e0) // us, ep.utcoffset() // us
+    # legacy file: plain long
+    guard = 0xFFFFFFFF
+    vals = [guard, guard + 1, 10 ** 12, 1609459200123456, 86400 * 10 ** 6 * 365]
+    raw = {"type": "record", "namespace": "verif", "name": "c13", "doc": json.dumps(D._pack()),
+           "fields": [{"name": "i", "type": ["long", "null"]}, {"name": "ts", "type": ["long", "null"]}]}
+    path = str(tmp / "legacy.avro")
+    with open(path, "wb") as fp:
+        fastavro.writer(fp, fastavro.parse_schema(raw), [{"i": k, "ts": v} for k, v in enumerate(vals)])
+    got = {}
+    try:
+        rd = RecordReader(path)
+        for x in rd:
+            got[int(x.i)] = x.ts
+        rd.close()
+    except Exception as e:  # noqa
+        got["error"] = e
+    unit = None
+    for name, mult in (("microseconds", 1), ("milliseconds", 1000), ("seconds", 10 ** 6)):
+        try:
+            if all(k in got and (got[k] - e0) // us == vals[k] * mult + epoch_micros for k in range(1, len(vals))):
+                unit = name
+        except Exception:  # noqa
+            pass
+    if unit is None:
+        return base, logical, epoch_micros, epoch_off, None, None
+    # at the guard itself the number is taken as epoch seconds
+    if 0 in got and (got[0] - e0) // us == guard * 10 ** 6:
+        return base, logical, epoch_micros, epoch_off, guard, unit
+    return base, logical, epoch_micros, epoch_off, None, unit
+
+
+def observe_new():
+    """What datetime.__new__ does with each input form; naive objects / epoch numbers probed under a non-UTC local
+    time zone (TZ=Asia/Kolkata via time.tzset) so that a local-time conversion would show."""
+    import time
+
+    import flow.record.fieldtypes as ft
+    from zoneinfo import ZoneInfo
+    us = _pydt.timedelta(microseconds=1)
+    old = os.environ.get("TZ")
+    os.environ["TZ"] = "Asia/Kolkata"
+    time.tzset()
+    try:
+        # object input
+        keeps = {"wall": True, "tzinfo": True, "fold": True, "naive_utc": True}
+        for kind, v in _probe_values():
+            r = ft.datetime(v)
+            if type(r) is not ft.datetime:
+                raise Unsupported("fieldtypes.datetime(%r) is a %s" % (v, type(r).__name__))
+            if _obs(r)[:7] != _obs(v)[:7]:
+                keeps["wall"] = False
+            if kind == "KNaive":
+                if r.utcoffset() != _pydt.timedelta(0) or _obs(r)[:7] != _obs(v)[:7]:
+                    keeps["naive_utc"] = False
+            else:
+                if r.tzinfo is not v.tzinfo and r.tzinfo != v.tzinfo:
+                    keeps["tzinfo"] = False
+                if r.utcoffset() != v.utcoffset():
+                    keeps["fold"] = False
+        # fold must really have been exercised: a wall time that occurs twice
+        amb = _pydt.datetime(2021, 10, 31, 2, 30, tzinfo=ZoneInfo("Europe/Amsterdam"), fold=1)
+        if amb.utcoffset() == amb.replace(fold=0).utcoffset():
+            raise Unsupported("zoneinfo gives one offset for both folds of 2021-10-31 02:30 Europe/Amsterdam")
+        if ft.datetime(amb).utcoffset() != amb.utcoffset():
+            keeps["fold"] = False
+        # field-wise construction (what unpacking a 7-tuple uses)
+        fw = ft.datetime(2021, 10, 31, 2, 30, 0, 5)
+        if _obs(fw) != (2021, 10, 31, 2, 30, 0, 5, 0):
+            keeps["naive_utc"] = False
+        # epoch numbers
+        epoch_ok = True
+        for n, want in ((0, (1970, 1, 1, 0, 0, 0, 0, 0)), (1.5, (1970, 1, 1, 0, 0, 1, 500000, 0)), (-1, (1969, 12, 31, 23, 59, 59, 0, 0)),
+                        (1700000000, (2023, 11, 14, 22, 13, 20, 0, 0))):
+            try:
+                if _obs(ft.datetime(n)) != want:
+                    epoch_ok = False
+            except Exception:  # noqa
+                epoch_ok = False
+        # ISO text
+        text_ok = True
+        for t in ("2021-10-31T02:30:00", "2021-10-31T02:30:00.000001+01:00", "0001-01-02 03:04:05-04:56:02", "2021-10-31T02:30:00Z",
+                  "1969-12-31T23:59:59.999999-00:00:01"):
+            std = _pydt.datetime.fromisoformat(t)
+            want = _obs(std)[:7] + ((std.utcoffset() or _pydt.timedelta(0)) // us,)
+            for arg in (t, t.encode()):
+                try:
+                    if _obs(ft.datetime(arg)) != want:
+                        text_ok = False
+                except Exception:  # noqa
+                    text_ok = False
+    finally:
+        if old is None:
+            os.environ.pop("TZ", None)
+        else:
+            os.environ["TZ"] = old
+        time.tzset()
+    if not (keeps["wall"] and keeps["tzinfo"]):
+        raise Unsupported("fieldtypes.datetime(<datetime object>) does not keep the wall clock fields / tzinfo: %r" % keeps)
+    passes = list(DT_FIELDS) + ["tzinfo"] + (["fold"] if keeps["fold"] else [])
+    naive_rule = "replace(tzinfo=UTC)" if keeps["naive_utc"] else "naive values are not given UTC with the same wall clock"
+    epoch_rule = "cls.fromtimestamp(arg, UTC)" if epoch_ok else "epoch numbers are not converted as UTC instants"
+    text_rule = "cls.fromisoformat(arg)" if text_ok else "text is not read as fromisoformat reads it"
+    cls = ft.datetime
+    defines = sorted(n for n, v in vars(cls).items() if callable(v) or isinstance(v, (staticmethod, classmethod)))
+    v = ft.datetime(2020, 1, 1)
+    if v._pack() is not v:
+        raise Unsupported("datetime._pack() does not return the value itself")
+    return passes, naive_rule, epoch_rule, text_rule, defines
+
+
+def _cross(notes, what, ast_fn, same):
+    """ast recogniser as a cross-check of an observed fact"""
+    try:
+        got = ast_fn()
+    except Unsupported as e:
+        notes.append("%s: source shape not recognised (%s); observed behaviour used" % (what, str(e)[:160]))
+        return
+    except Exception as e:  # noqa
+        notes.append("%s: recogniser failed (%s: %s); observed behaviour used" % (what, type(e).__name__, str(e)[:120]))
+        return
+    if not same(got):
+        raise Unsupported("%s: the source as recognised (%r) contradicts the observed behaviour" % (what, got))
+
+
 # ------------------------------------------------------------------------------------------ display setting
+
+_TAINTED = set(DISPLAY_NAMES)      # names that carry the display setting (grown by display_readers)
+
 
 def _mentions_here(n):
     """does this single AST node (not its children) name the display setting?"""
-    if isinstance(n, ast.Name) and n.id in DISPLAY_NAMES:
+    if isinstance(n, ast.Name) and n.id in _TAINTED:
         return True
-    if isinstance(n, ast.Attribute) and n.attr in DISPLAY_NAMES:
+    if isinstance(n, ast.Attribute) and n.attr in _TAINTED:
         return True
-    if isinstance(n, ast.alias) and (n.name in DISPLAY_NAMES or (n.asname or "") in DISPLAY_NAMES):
+    if isinstance(n, ast.alias) and (n.name in _TAINTED or (n.asname or "") in _TAINTED):
         return True
-    if isinstance(n, ast.Constant) and isinstance(n.value, str) and (DISPLAY_ENV in n.value or n.value in DISPLAY_NAMES):
+    if isinstance(n, ast.Constant) and isinstance(n.value, str) and (DISPLAY_ENV in n.value or n.value in _TAINTED):
         return True
     return False
+
+
+def _grow_tainted(trees):
+    """module-level names assigned from something that names the setting (a constant holding the variable's name, the
+    zone object computed from it, ...) carry the setting too: to a fixpoint"""
+    changed = True
+    while changed:
+        changed = False
+        for tree in trees:
+            for st in tree.body:
+                targets = []
+                if isinstance(st, ast.Assign):
+                    targets, val = st.targets, st.value
+                elif isinstance(st, ast.AnnAssign) and st.value is not None:
+                    targets, val = [st.target], st.value
+                else:
+                    continue
+                if any(_mentions_here(n) for n in ast.walk(val)):
+                    for t in targets:
+                        if isinstance(t, ast.Name) and t.id not in _TAINTED:
+                            _TAINTED.add(t.id)
+                            changed = True
 
 
 def _scan_scope(stmts, qual, prefix, mod, out):
@@ -598,12 +900,17 @@ def display_readers():
     import flow.record as fr
     root = Path(fr.__file__).parent
     out = []
+    trees = []
     for p in sorted(root.rglob("*.py")):
         mod = str(p.relative_to(root))[:-3]
         try:
-            tree = ast.parse(p.read_text())
+            trees.append((mod, ast.parse(p.read_text())))
         except SyntaxError as e:
             raise Unsupported("cannot parse %s: %s" % (p, e))
+    _TAINTED.clear()
+    _TAINTED.update(DISPLAY_NAMES)
+    _grow_tainted([t for _, t in trees])
+    for mod, tree in trees:
         _scan_scope(tree.body, "<module>", "", mod, out)
     return sorted(set(out))
 
@@ -689,17 +996,43 @@ OPS_ORDER = ["OpStr", "OpRepr", "OpPack", "OpEq", "OpHash", "OpNew", "OpWriteStr
 def gen_time():
     if not hasattr(gen_time.__code__, "co_qualname"):
         raise Unsupported("interpreter lacks co_qualname")
-    tests, then_form, else_form, pack_type = packer_facts()
-    jform = json_form()
-    sform, scol, sback = sqlite_facts()
-    scols = sqlite_column_facts()
+    notes = []
+    work = Path(os.environ.get("VERIF_FACT_TMP") or "/verif/.work")
+    work.mkdir(parents=True, exist_ok=True)
+    tmp = Path(tempfile.mkdtemp(prefix="factgen_c13obs.", dir=str(work)))
+    try:
+        route_descriptors()
+        tests, then_form, else_form, pack_type = observe_packer()
+        _cross(notes, "RecordPacker.pack_obj/unpack_obj", packer_facts,
+               lambda g: (set(g[0]), g[1], g[2], g[3]) == (set(tests), then_form, else_form, pack_type)
+               or (then_form == g[2] and else_form == g[1]))
+        jform = observe_json_form()
+        _cross(notes, "JsonRecordPacker.pack_obj", json_form, lambda g: g == jform)
+        sform, scols = observe_sqlite(tmp)
+        scol, sback = scols["create"]
+        _cross(notes, "db_insert_record", sqlite_facts, lambda g: g == (sform, scol, sback))
+        _cross(notes, "create_descriptor_table/update_descriptor_columns", sqlite_column_facts, lambda g: g == scols)
+        abase, alogical, aepoch, aepoch_off, aguard, aunit = observe_avro(tmp)
+        if aguard is None or aunit is None:
+            # behaviour at the expected boundary is not conclusive: the source has to say it
+            g = avro_facts()
+            if aunit is not None and g[5] != aunit:
+                raise Unsupported("AvroReader: observed unit %r, source says %r" % (aunit, g[5]))
+            aguard, aunit = g[4], g[5]
+            notes.append("AvroReader guard: taken from the source (observation at 0xFFFFFFFF not conclusive)")
+        else:
+            _cross(notes, "AvroReader.__iter__", avro_facts, lambda g: g == (abase, alogical, aepoch, aepoch_off, aguard, aunit))
+        passes, naive_rule, epoch_rule, text_rule, defines = observe_new()
+        _cross(notes, "datetime.__new__", new_facts, lambda g: ("fold" in g[0]) == ("fold" in passes) and g[1] == naive_rule)
+    finally:
+        shutil.rmtree(tmp, ignore_errors=True)
     routes = route_functions()
-    abase, alogical, aepoch, aepoch_off, aguard, aunit = avro_facts()
-    passes, naive_rule, defines = new_facts()
     quirk = fromiso_probe()
     readers = display_readers()
     opf = op_functions()
     out = HEADER
+    for n_ in notes:
+        out += "(* note: %s *)\n" % n_.replace("(*", "( *").replace("*)", "* )")
     out += "From Coq Require Import List ZArith String.\nImport ListNotations.\nFrom FR Require Import IsoTime.\nOpen Scope string_scope.\n\n"
     out += "(* packer.py: RecordPacker.pack_obj, datetime branch: `if <tests joined by or>: <then> else: <else>` *)\n"
     out += "Definition gen_pack_rule : pack_rule :=\n  {| pr_tests := %s; pr_then := %s; pr_else := %s |}.\n" % (clist(tests), then_form, else_form)
@@ -728,8 +1061,8 @@ def gen_time():
     out += "Definition gen_new_obj_passes : list string := %s.\n" % clist([cstr(x) for x in passes])
     out += "Definition gen_new_keeps_fold : bool := %s.\n" % cbool("fold" in passes)
     out += "Definition gen_new_naive_rule : string := %s.\n" % cstr(naive_rule)
-    out += "Definition gen_new_text_rule : string := \"cls.fromisoformat(arg)\".\n"
-    out += "Definition gen_new_epoch_rule : string := \"cls.fromtimestamp(arg, UTC)\".\n"
+    out += "Definition gen_new_text_rule : string := %s.\n" % cstr(text_rule)
+    out += "Definition gen_new_epoch_rule : string := %s.\n" % cstr(epoch_rule)
     out += "(* probe of cls.fromisoformat on this interpreter: an offset of less than one second is read as UTC *)\n"
     out += "Definition gen_fromiso_drops_subsecond_offset : bool := %s.\n" % cbool(quirk)
     out += "Definition gen_datetime_class_defines : list string := %s.\n\n" % clist([cstr(x) for x in defines])
